@@ -4,6 +4,8 @@ cd "$(dirname "$0")/.."
 tier=$1; seed=$2; shift 2
 props=${@:-C01 C02 C03 C04 C05 C06 C07 C08 C09 C10 C11 C12 C13 C14 C15 C16 C17 C18 C19 C20}
 mkdir -p build/soak
+# soak runs do not touch the committed evidence files unless asked to (KEEP_EVIDENCE=1)
+[ "${KEEP_EVIDENCE:-0}" = "1" ] || export VERIF_EVIDENCE_DIR=$PWD/build/soak/evidence
 for P in $props; do
   s=$(date +%s)
   VERIF_SEED=$seed ./check $P --tier $tier > build/soak/$P.$tier.$seed.log 2>&1; rc=$?
